@@ -127,6 +127,9 @@ def normalise(sc_id, events):
 
     out = [{"e": "Reset", "sc": sc_id}]
     nconn = 0
+    dc2_addr = None
+    conns_seen = set()
+    last_dc2 = [False]    # write order is observable per server only: the first frame after a change of data centre is not compared with the past
     # updates must be surfaced when the scenario installed a handler or a warning channel
     surface = any(e["e"] == "Start" and e.get("surface") for e in events)
     for e in events:
@@ -137,11 +140,15 @@ def normalise(sc_id, events):
             kind = e.get("kind", "unreadable")
             out.append({"e": "Wire", "kind": kind, "id": r(e.get("id")), "mod4": e.get("mod4", 0), "clock": bool(e.get("clock", True)),
                         "seq": e.get("seq", 0), "saltok": bool(e.get("saltok", True)), "tag": e.get("tag", 0),
-                        "acks": [r(a) for a in e.get("acks", [])], "conn": e.get("conn", 0)})
+                        "acks": [r(a) for a in e.get("acks", [])], "conn": e.get("conn", 0), "first": bool(conns_seen) and (e.get("conn", 0) >= 1000) != last_dc2[0]})
+            conns_seen.add(e.get("conn", 0))
+            last_dc2[0] = e.get("conn", 0) >= 1000
         elif k == "Wire2":
             if "tag" in e:
-                out.append({"e": "Wire", "kind": "req", "id": r(e.get("id")), "mod4": int(e["id"]) & 3, "clock": True, "seq": 1,
-                            "saltok": True, "tag": e["tag"], "acks": [], "conn": e.get("conn", 1000)})
+                out.append({"e": "Wire", "kind": "req", "id": r(e.get("id")), "mod4": int(e["id"]) & 3, "clock": True, "seq": e.get("seq", 1),
+                            "saltok": True, "tag": e["tag"], "acks": [], "conn": e.get("conn", 1000), "first": bool(conns_seen) and not last_dc2[0]})
+                conns_seen.add(e.get("conn", 1000))
+                last_dc2[0] = True
         elif k == "SrvSend":
             b = e["body"]
             t = b.get("t", "push")
@@ -160,8 +167,11 @@ def normalise(sc_id, events):
             out.append({"e": "SrvSend", "t": "result", "sid": 0, "content": False, "req": r(e.get("req")), "val": _val(e.get("val")),
                         "items": [], "newsalt": 0, "what": "result"})
         elif k == "Rotate":
-            salt_rank(e.get("salt"))
-            out.append({"e": "Rotate"})
+            out.append({"e": "Rotate", "salt": salt_rank(e.get("salt"))})
+        elif k == "Prefilled":
+            out.append({"e": "Prefilled", "salt": salt_rank(e.get("salt"))})
+        elif k == "HSDone":
+            out.append({"e": "HSDone", "salt": salt_rank(e.get("salt"))})
         elif k == "SrvClose":
             out.append({"e": "SrvClose"})
         elif k == "ConnOpen":
@@ -169,8 +179,11 @@ def normalise(sc_id, events):
             out.append({"e": "ConnOpen", "conn": e["conn"], "first": e["first"], "n": nconn})
         elif k == "WrongHost":
             out.append({"e": "ConnectError"})
+        elif k == "DC2":
+            dc2_addr = e.get("addr")
+            out.append({"e": "Note"})
         elif k == "Stored":
-            out.append({"e": "Stored", "salt": salt_rank(e.get("salt"))})
+            out.append({"e": "Stored", "salt": salt_rank(e.get("salt")), "home": 2 if dc2_addr and e.get("addr") == dc2_addr else 1})
         elif k == "Return":
             out.append({"e": "Return", "c": e["c"], "val": _val(e.get("val"))})
         elif k == "Timeout":
@@ -181,6 +194,12 @@ def normalise(sc_id, events):
             out.append({"e": "ConnectError"})
         elif k == "Update" or (k == "Warn" and "nonsystem message" in e.get("text", "")):
             out.append({"e": "Update"})
+        elif k == "Restarted":
+            out.append({"e": "Restarted"})
+        elif k == "Connected":
+            out.append({"e": "Connected"})
+        elif k == "Plain":
+            out.append({"e": "Plain"})
         elif k == "End":
             out.append({"e": "End", "ok": bool(e.get("ok")), "surface": surface})
         else:
@@ -344,6 +363,17 @@ def run_c17_part(ctx):
                call("c2", 12), {"a": "AnswerError", "tag": 12, "code": 303, "text": "PHONE_MIGRATE_7", "what": "anyerror"}, {"a": "Await", "c": "c2"},
                call("c3", 13), {"a": "AnswerError", "tag": 13, "code": 303, "text": "PHONE_MIGRATE_9", "what": "anyerror"}, {"a": "Await", "c": "c3"},
                {"a": "Rotate"}, {"a": "Probe", "tag": 91}, {"a": "Settle"}], dc={"dc2": 2}))
+    # migration after migration (each followed by a restart, which brings the client back to the stored first data
+    # centre): the caller's reconnect runs while the receive loop of the old connection is still winding down
+    for k in range(12 if ctx.tier == "thorough" else 6):
+        sid += 1
+        steps, tag = [{"a": "Probe", "tag": 90}], 100
+        for _ in range(20):
+            tag += 1
+            steps += [call("m%d" % tag, tag), {"a": "AnswerError", "tag": tag, "code": 303, "text": "PHONE_MIGRATE_2"}, {"a": "Await", "c": "m%d" % tag},
+                      {"a": "Restart"}]
+        steps += [{"a": "Probe", "tag": 91}, {"a": "Settle"}]
+        scs.append(mk(sid, "many-migrations", "migrate", steps, dc={"dc2": 2}))
     # PHONE_MIGRATE without a usable number is an error like any other: returned, never a crash
     for text in ("PHONE_MIGRATE_X", "PHONE_MIGRATE_", "PHONE_MIGRATE_abc", "PHONE_MIGRATE_%d", "PHONE_MIGRATE_99999999999999999999"):
         sid += 1
@@ -351,6 +381,51 @@ def run_c17_part(ctx):
                    {"a": "AnswerError", "tag": 11, "code": 303, "text": text}, {"a": "Await", "c": "c1"}, {"a": "Probe", "tag": 91}, {"a": "Settle"}], dc={"dc2": 2}))
     st = judge(ctx, scs, K_RESULT | K_LIVE | K_CONNECT | {"rejected-request-not-resent", "accepted-request-resent"}, "c17")
     return {"histories": len(scs), "evaluations": st["events"], "coverage": {"end_to_end": st}}
+
+
+K_LIFE = {"key-exchange-with-key-held", "request-sent-to-the-old-data-centre", "resumed-without-the-stored-salt", "reconnect-with-key-exchange"}
+
+
+def tlc_lives(ctx, num):
+    """Behaviours of spec/Lifecycle.tla (tlc -simulate): lives of a client across restarts."""
+    res = C.run_tlc(ctx, "LifecycleGen", "LifecycleGen.cfg", workers=1, simulate="num=%d" % num, extra=["-depth", "80", "-seed", str(ctx.seed)],
+                    timeout=600, tag="generate:LifecycleGen.cfg")
+    out, seen = [], set()
+    for m in re.finditer(r'<<"LIFE", "(.*)">>', res.out):
+        txt = json.loads('"' + m.group(1) + '"')
+        if txt not in seen:
+            seen.add(txt)
+            out.append(json.loads(txt))
+    if not out:
+        raise C.Broken("no lives from LifecycleGen:\n" + res.out[-1500:])
+    return out
+
+
+def project_life(life, sid):
+    """Lifecycle behaviour -> one harness scenario (the first Start is the scenario's own start)."""
+    steps, tag, started, restarts = [], 100, False, 0
+    fresh = not life[0].get("prefilled")
+    i = 1
+    while i < len(life):
+        a = life[i]["a"]
+        if a == "Start":
+            if started:
+                steps += [{"a": "Drain"}, {"a": "Restart"}]
+                restarts += 1
+            started = True
+        elif a == "Call":
+            tag += 1
+            steps.append({"a": "Probe", "tag": tag})
+        elif a == "Rotate":
+            steps.append({"a": "Rotate"})
+        elif a == "Migrate":
+            tag += 1
+            steps += [call("m%d" % tag, tag), {"a": "AnswerError", "tag": tag, "code": 303, "text": "PHONE_MIGRATE_2"}, {"a": "Await", "c": "m%d" % tag}]
+        i += 1
+    if steps and steps[-1]["a"] == "Restart":
+        steps.append({"a": "Probe", "tag": tag + 1})
+    steps.append({"a": "Settle"})
+    return mk(sid, "life", "resume", steps, fresh=fresh, dc={"dc2": 2}), restarts
 
 
 def run_c12_part(ctx):
@@ -373,4 +448,24 @@ def run_c12_part(ctx):
             ctx.disagreement("resume:key-exchange-on-resume", "a client with a stored session started a key exchange", {"scenario": sc, "events": evs[:60]})
         elif not wires or not wires[0].get("keyok") or not wires[0].get("saltok"):
             ctx.disagreement("resume:stored-key-or-salt-not-used", "first frame of a resumed client is not under the stored key and salt", {"scenario": sc, "events": evs[:60]})
-    return {"histories": len(scs), "coverage": {"resume_scenarios": len(scs), "resume_events": nev}}
+    # lives across restarts generated from spec/Lifecycle.tla
+    thorough = ctx.tier == "thorough"
+    mc = C.run_tlc(ctx, "Lifecycle", "Lifecycle.cfg", workers=4, timeout=600, deadlock=False, tag="Lifecycle.cfg")
+    for d in ("HandshakeOnResume", "IgnoreStoredAddress", "IgnoreStoredSalt", "SaltNotStored"):
+        C.run_tlc(ctx, "Lifecycle", "LifecycleDev%s.cfg" % d, workers=2, timeout=300, deadlock=False, expect_violation=True, tag="sensitivity:" + d)
+    lives = tlc_lives(ctx, 300 if thorough else 60)
+    lscs, nrestart = [], 0
+    for life in lives:
+        sc, k = project_life(life, len(lscs) + 1)
+        if k == 0:
+            continue
+        lscs.append(sc)
+        nrestart += k
+        if len(lscs) >= (120 if thorough else 16):
+            break
+    if len(lscs) < 5:
+        raise C.Broken("Lifecycle.tla gave fewer than 5 lives with a restart")
+    st = judge(ctx, lscs, K_RESULT | K_LIVE | K_CONNECT | K_SALT | K_LIFE, "resume")
+    return {"histories": len(scs) + len(lscs),
+            "coverage": {"resume_scenarios": len(scs), "resume_events": nev, "lifecycle_states": mc.distinct, "lives_replayed": len(lscs),
+                         "restarts_replayed": nrestart, "lifecycle_events": st["events"], "lifecycle_verdict_kinds": st["verdict_kinds"]}}
